@@ -25,7 +25,7 @@ EXPLANATION = (
     'largest table the men guard admits, aligned to slots and buckets, guarded by the size test, and placed at the top of the table.'
     ' (5) probeDTM answers only for positions without castling rights (the castle mask is tested in the probe or in the position import it requires).'
     ' Added later; (7) every adjacent-duplicate filter of the generator compares each element that has a predecessor with it, and the successor / predecessor lists are sorted before they are returned.'
-    " Added later; (8) in getUnMoves the un-capture moves the black king first and the white king last, as TBIndex::setSquare's special cases require (guard evaluated for every piece number). (7, extended) every neighbour-list loop has such a filter, or the list is cut at std::unique where it is sorted. (9) TBPosition::setPosition succeeds only after a sweep over every piece type that fails on a man that found no slot. (10) the first sweep of the generation stores a value for every index it visits (memory inside the hash table holds stale bytes). (11) TBIndex::canonize does not re-order the pieces after the index was compared with its mirror alternative.")
+    " Added later; (8) in getUnMoves the un-capture moves the black king first and the white king last, as TBIndex::setSquare's special cases require (guard evaluated for every piece number). (7, extended) every neighbour-list loop has such a filter, or the list is cut at std::unique where it is sorted. (9) TBPosition::setPosition succeeds only after a sweep over every piece type that fails on a man that found no slot. (10) the first sweep of the generation stores a value for every index it visits (memory inside the hash table holds stale bytes). (11) TBIndex::canonize does not re-order the pieces after the index was compared with its mirror alternative. (12) updateTB decides 'not enough time to generate' only after 'the root is already in the installed table'.")
 UNDECIDED = 'exactness of the distance-to-mate values themselves (retrograde analysis over millions of positions is value-level).'
 ASSUMPTIONS = ['8-bit two\'s complement storage of PositionValue::State (S8)',
                'TBPosition index arithmetic (20*64^(N-1) positions) is read from the constructor\'s constants']
@@ -45,6 +45,7 @@ def run(fb, rep, tier):
     c9_all_men_placed(fb, rep, 'C12.9')
     c10_first_sweep_defines_every_slot(fb, rep, 'C12.10')
     c11_canonical_index_compared_after_sorting(fb, rep, 'C12.11')
+    c12_installed_table_is_used(fb, rep, 'C12.12')
 
 
 # ----------------------------------------------------------------------------- .1
@@ -567,9 +568,9 @@ def tb_size_roles(up):
     for bid, blk in up.blocks.items():
         c = (blk.get('term') or {}).get('cond')
         for n in walk(c or {}):
-            if n.get('k') == 'bin' and n.get('op') in ('<', '<=') and any(x.get('k') == 'var' and x.get('id') in tt_ids for x in walk(n.get('l'))):
-                for x in walk(n.get('r')):
-                    if x.get('k') == 'var' and x.get('id') in consts:
+            if n.get('k') == 'bin' and n.get('op') in ('<', '<=', '>', '>=') and any(x.get('k') == 'var' and x.get('id') in tt_ids for x in walk(n)):
+                for x in walk(n):
+                    if x.get('k') == 'var' and x.get('id') in consts and consts[x['id']] >= 65536:
                         return tt_ids, x['id'], consts[x['id']]
     return tt_ids, None, None
 
@@ -1190,3 +1191,36 @@ def c11_canonical_index_compared_after_sorting(fb, rep, clause):
     late = [(b, i, e) for b, i, e in cmps if f.path_avoiding((b, i), is_sort, lambda x: False) is not None]
     rep.ob(clause, 'K2 must-precede', 'canonize: the pieces are not re-ordered after the index was compared with its mirror alternative', not late,
            R.site(f, late[0][2]) if late else f.where, '%d comparison(s), %d followed by a sortPieces call' % (len(cmps), len(late)), f.sname)
+
+
+# ----------------------------------------------------------------------------- .12
+
+def c12_installed_table_is_used(fb, rep, clause):
+    """K2 an installed table answers for its class whatever the next search's time budget is.  updateTB() first asks whether the
+    root is already covered by the installed table and only then whether there is time to generate a new one.  A `return
+    false` that depends on the time budget and can be reached without that question leaves a complete table unused: the
+    search does not probe it and reports a heuristic score where the exact distance is available."""
+    f = fb.find1('TranspositionTable::updateTB')
+    if rep.need(clause, f, 'TranspositionTable::updateTB') is None:
+        return
+    lim = next((p_['id'] for p_ in f.d.get('params', []) if 'RelaxedShared' in (p_.get('t') or '')), None)
+    if rep.need(clause, lim, 'the time-limit parameter of updateTB') is None:
+        return
+    # the question: `tbGen && tbGen->probeDTM(root)` - with no table installed the null test alone has answered it
+    asked = lambda e: e is not None and e.get('k') == 'call' and (cname(e).split('::')[-1] == 'probeDTM' or
+                                                                 (cname(e).split('::')[-1] in ('operator bool', 'get') and ap(e.get('recv')) == 'this.tbGen' and not e.get('args')))
+    n_q = sum(1 for _, _, e in f.events() if e.get('k') == 'call' and cname(e).split('::')[-1] == 'probeDTM')
+    rep.floor(clause, 'questions "is the root in the installed table" in updateTB', n_q, 1)
+    n = 0
+    for b, blk in sorted(f.blocks.items()):
+        rets = [e for e in blk['ev'] if e.get('k') == 'ret' and (_strip12(e.get('e')) or {}).get('cv') == 0]
+        if not rets or b in f.dead:
+            continue
+        gs = list(G.guard_trees(f, set(f.blocks), b)) + G._whole_conditions(f, set(f.blocks), b)
+        if not any(isinstance(x, dict) and x.get('k') == 'var' and x.get('id') == lim for c, _ in gs for x in walk(c)):
+            continue
+        n += 1
+        w = f.path_avoiding((f.entry, -1), lambda x, _r=rets[0]: x is _r, asked)
+        rep.ob(clause, 'K2 must-precede', 'updateTB: "not enough time to generate" is decided only after "the root is already in the installed table"', w is None,
+               R.site(f, rets[0]), '' if w is None else 'reachable without the question: ' + ' -> '.join('B%s@%s' % x for x in w[-5:]), f.sname)
+    rep.floor(clause, 'time-dependent refusals in updateTB', n, 1)
